@@ -998,6 +998,11 @@ func xReplayWith(tag string) func(i int, raw json.RawMessage) Result {
 		if err := json.Unmarshal(raw, &v); err != nil {
 			return Result{Detail: "bad vector: " + err.Error()}
 		}
+		if i == 0 && tag == "poison" && os.Getenv("VERIF_TRACE") == "" {
+			if r := c13BlocksAfterFailedBody(); r != nil {
+				return *r
+			}
+		}
 		if i == 0 && tag == "alt" {
 			if r := c10PointerParam(); r != nil {
 				return *r
@@ -1573,3 +1578,71 @@ func xRecord(a []string) int {
 }
 
 func init() { commands["record-exec"] = xRecord }
+
+// c13BlocksAfterFailedBody: history probe. A try whose body fails inside another template (exec, include, includeIfExists,
+// a yielded block that includes) leaves no trace: the blocks, '.', variables and output destination after the try are those
+// before it, also when the failing template defines, imports or inherits a block of the same name as one of the caller's.
+func c13BlocksAfterFailedBody() *Result {
+	helpers := map[string]string{
+		"undef":   `{{block greet()}}HELPER{{end}}{{ nosuchvariable }}`,
+		"panic":   `{{block greet()}}HELPER{{end}}{{ boom() }}`,
+		"index":   `{{block greet()}}HELPER{{end}}{{ xs[7] }}`,
+		"late":    `h{{ yield greet() }}{{block greet()}}HELPER{{end}}{{ xs[7] }}`,
+		"extends": `{{extends "/layout.jet"}}{{block greet()}}HELPER{{end}}`,
+		"import":  `{{import "/lib.jet"}}{{ yield greet() }}{{ xs[7] }}`,
+		"nested":  `{{block greet()}}HELPER{{end}}{{ try }}{{ xs[7] }}{{ catch }}{{ end }}{{ include "/helper-undef.jet" }}`,
+	}
+	hnames := []string{"undef", "panic", "index", "late", "extends", "import", "nested"}
+	sites := map[string]string{
+		"exec":     `{{ exec("/helper-%s.jet") }}`,
+		"exec2":    `{{ exec("/helper-%s.jet", xs) }}`,
+		"include":  `{{ include "/helper-%s.jet" }}`,
+		"include2": `{{ include "/helper-%s.jet" xs }}`,
+		"incif":    `{{ includeIfExists("/helper-%s.jet") }}`,
+		"yield":    `{{ yield wrap() content }}{{ exec("/helper-%s.jet") }}{{ end }}`,
+		"assign":   `{{ r := exec("/helper-%s.jet") }}{{ r }}`,
+	}
+	snames := []string{"exec", "exec2", "include", "include2", "incif", "yield", "assign"}
+	judged := 0
+	for _, hn := range hnames {
+		for _, sn := range snames {
+			l := jet.NewInMemLoader()
+			for k, src := range helpers {
+				l.Set("/helper-"+k+".jet", src)
+			}
+			l.Set("/layout.jet", `L{{block greet()}}LAYOUT{{end}}{{ xs[7] }}`)
+			l.Set("/lib.jet", `{{block greet()}}LIB{{end}}`)
+			site := fmt.Sprintf(sites[sn], hn)
+			l.Set("/main.jet", `{{block greet()}}MAIN{{end}}{{block wrap()}}<{{ yield content }}>{{end}}{{ v := "var" }}|{{try}}x`+site+`y{{catch}}caught{{end}}|{{yield greet()}}|{{ v }}|{{ . }}`)
+			l.Set("/main-e.jet", `{{block greet()}}MAIN{{end}}{{block wrap()}}<{{ yield content }}>{{end}}{{ v := "var" }}|{{try}}x`+site+`y{{catch e}}caught{{end}}|{{yield greet()}}|{{ v }}|{{ . }}`)
+			set := jet.NewSet(l)
+			set.AddGlobal("boom", func() string { panic("boom") })
+			want := "MAIN<>|caught|MAIN|var|dot"
+			for _, name := range []string{"/main.jet", "/main-e.jet"} {
+				t, err := set.GetTemplate(name)
+				if err != nil {
+					continue
+				}
+				judged++
+				for round := 1; round <= 2; round++ {
+					var b bytes.Buffer
+					vars := jet.VarMap{}
+					vars.Set("xs", []int{1, 2})
+					err := safeExecute(t, &b, vars, "dot")
+					if err != nil || b.String() != want {
+						src, _ := l.Open(name)
+						text := new(bytes.Buffer)
+						text.ReadFrom(src)
+						return &Result{Sig: map[string]interface{}{"kind": "output", "run": round - 1, "errclass": "", "tag": "tryhistory|" + sn + "|" + hn}, Key: "probe",
+							Observed: b.String(), Expected: want,
+							Detail: fmt.Sprintf("%s with /helper-%s.jet = %s (execution %d) rendered %q (err %v), want %q", text.String(), hn, helpers[hn], round, b.String(), err, want)}
+					}
+				}
+			}
+		}
+	}
+	if os.Getenv("VERIF_DEBUG") != "" {
+		fmt.Fprintln(os.Stderr, "c13BlocksAfterFailedBody: templates judged:", judged)
+	}
+	return nil
+}
